@@ -226,7 +226,7 @@ def histories(draw, tier):
     # the whole history, refused calls repeated many times with few file descriptors to spare
     env = {
         "pad": draw(st.sampled_from([0, 0, 0, 0, 150, 300, 600, "odd", "odd"])),  # "odd": names containing pieces of the file-name grammar
-        "cwd": draw(st.sampled_from([None, None, None, "chan", "chan", "top", "rel", "rel-dot"])),
+        "cwd": draw(st.sampled_from([None, None, None, "chan", "chan", "top", "rel", "rel-dot", "slash"])),
         "keep_reader": draw(st.booleans()),
         "repeat": draw(st.sampled_from([1, 1, 1, 2, 40])),
         # permission bits of the data files of earlier sessions while a later session records: as written / read-only
@@ -273,7 +273,7 @@ def directed_cases(tier):
         # a later session starts before the recorded data and runs into it: refused (also when repeated), then continues in a
         # free period - in each environment that must not matter: long channel paths, current directory inside the channel,
         # relative path spellings, finalized files that have become symbolic links, many repetitions with few descriptors
-        for env, link in (({"pad": 0}, False), ({"perm": 0o444}, False), ({"perm": 0o200}, False), ({"perm": 0}, False), ({"pad": 300}, False), ({"pad": 600}, False), ({"cwd": "chan"}, False), ({"cwd": "rel-dot"}, False),
+        for env, link in (({"pad": 0}, False), ({"perm": 0o444}, False), ({"perm": 0o200}, False), ({"perm": 0}, False), ({"pad": 300}, False), ({"pad": 600}, False), ({"cwd": "chan"}, False), ({"cwd": "rel-dot"}, False), ({"cwd": "slash"}, False),
                           ({"cwd": "top", "keep_reader": True}, False), ({"repeat": 40, "keep_reader": True}, False), ({"pad": 150}, True)):
             steps = [{"s": "open", "dir": 0, "start": b + 1000, "salt": 4001, "uuid": "sess81", "mode": "first"},
                      {"s": "write", "op": {"op": "w", "idx": 0, "len": 150, "cid": 0}, "expect": "ok"}, {"s": "close"}, {"s": "read"}]
@@ -449,13 +449,22 @@ def run_case(case, keep=None, on_tree=None):
             os.makedirs(os.path.join(t, "ch0"))
         cwd_mode = env.get("cwd")
 
+        spelled = {}
+
         def spell(full):
-            """how a directory is named to the library: absolute, or relative to the current directory (plain / decorated)"""
-            if cwd_mode == "rel":
-                return os.path.relpath(full, base)
-            if cwd_mode == "rel-dot":
-                return "./" + os.path.relpath(full, base) + "/"
-            return full
+            """how a directory is named to the library: absolute (plain / with a trailing slash), or relative to the current
+            directory (plain / decorated).  The application keeps its path variables: every later session, reader and
+            regeneration is handed the SAME string object."""
+            if full not in spelled:
+                if cwd_mode == "rel":
+                    spelled[full] = os.path.relpath(full, base)
+                elif cwd_mode == "rel-dot":
+                    spelled[full] = "./" + os.path.relpath(full, base) + "/"
+                elif cwd_mode == "slash":
+                    spelled[full] = full + "/"
+                else:
+                    spelled[full] = full
+            return spelled[full]
 
         if cwd_mode == "chan":
             os.chdir(os.path.join(tops[0], "ch0"))  # a directory that holds entries named like the subdirectories
